@@ -107,7 +107,48 @@ pub fn frame_set(name: &str) -> Vec<FrameSpec> {
             ],
         ));
     };
+    // C05: blocks at and beyond the 128 KiB limit; window 128 KiB (descriptor 0x38)
+    let hostile = |v: &mut Vec<FrameSpec>| {
+        let big = |name: &str, ml: u32, nseq: usize| {
+            plain(
+                name,
+                0x38,
+                false,
+                vec![
+                    Blk::Raw(fresh(1, 20)),
+                    Blk::Comp { lits: Lits::Raw(fresh(3, 21)), seqs: std::iter::once((3u32, 4u32, ml)).chain(std::iter::repeat((0u32, 4u32, ml)).take(nseq - 1)).collect(), modes: rle_modes(if nseq == 1 { 3 } else { 0 }, 4, ml) },
+                    Blk::Raw(vec![]),
+                ],
+            )
+        };
+        // exactly 128 KiB: 3 literals + one match of 131069
+        v.push(big("max_block_exact", 131069, 1));
+        // one byte more
+        v.push(big("max_block_plus1", 131070, 1));
+        // RLE literals of 128 KiB + 1 and no sequences
+        v.push(plain("rle_lits_plus1", 0x38, false, vec![Blk::Raw(fresh(1, 22)), Blk::Comp { lits: Lits::Rle(7, 131073), seqs: vec![], modes: (SeqMode::Predef, SeqMode::Predef, SeqMode::Predef) }, Blk::Raw(vec![])]));
+        v.push(plain("rle_lits_exact", 0x38, true, vec![Blk::Raw(fresh(1, 22)), Blk::Comp { lits: Lits::Rle(7, 131072), seqs: vec![], modes: (SeqMode::Predef, SeqMode::Predef, SeqMode::Predef) }, Blk::Raw(vec![])]));
+        v.push(plain("rle_block_max", 0x38, true, vec![Blk::Rle(9, 131072), Blk::Rle(10, 131072), Blk::Raw(fresh(5, 23))]));
+    };
     match name {
+        "hostile" => {
+            hostile(&mut v);
+            // a thousand maximum-length matches in one block (finding F1)
+            let ml = 131074u32;
+            v.push(plain(
+                "f1_1000",
+                0x00,
+                false,
+                vec![Blk::Raw(fresh(1, 24)), Blk::Comp { lits: Lits::Raw(vec![]), seqs: vec![(0, 4, ml); 1000], modes: rle_modes(0, 4, ml) }],
+            ));
+            v.push(plain(
+                "f1_32800",
+                0x00,
+                false,
+                vec![Blk::Raw(fresh(1, 25)), Blk::Comp { lits: Lits::Raw(vec![]), seqs: vec![(0, 4, ml); 32800], modes: rle_modes(0, 4, ml) }],
+            ));
+            v.push(plain("rle3_cks", 0x00, true, vec![Blk::Rle(17, 1023), Blk::Raw(fresh(2, 1)), Blk::Rle(34, 1024)]));
+        }
         "core" => {
             core(&mut v);
         }
@@ -184,6 +225,7 @@ pub struct FrameInfo {
     pub cks: bool,
     pub win: usize,
     pub len: usize,
+    pub valid: bool,
 }
 
 pub fn load_frames(path: &str) -> Vec<FrameInfo> {
@@ -198,248 +240,454 @@ pub fn load_frames(path: &str) -> Vec<FrameInfo> {
             cks: f["cks"].as_bool().unwrap(),
             win: f["win"].as_u64().unwrap() as usize,
             len: f["len"].as_u64().unwrap() as usize,
+            valid: f["valid"].as_bool().unwrap(),
         })
         .collect()
 }
 
 type SD<'a> = StreamingDecoder<Src, &'a mut FrameDecoder>;
 
+/// What one program run found.
+/// `violations`: the property-level observables are wrong (these alone raise an alarm).
+/// `drift`: the first step at which an intermediate value (a counter, the amount handed out by one call, the
+/// number of blocks decoded by one call) differs from the as-built model although no property-level observable
+/// is wrong.  After drift the rest of the program runs without predictions, with the property-level checks only.
+#[derive(Default)]
+pub struct Outcome {
+    pub violations: Vec<(usize, String)>,
+    pub drift: Option<(usize, String)>,
+    pub steps: usize,
+}
+
+struct Exec<'f> {
+    decp: *mut FrameDecoder,
+    sd: Option<SD<'static>>,
+    src: Src,
+    fi: usize,
+    cutv: usize,
+    frames: &'f [FrameInfo],
+    delivered: Vec<u8>,
+    chunk: usize,
+    mode: u8,
+    started: bool,
+    failed: bool,      // a call returned an error for the current frame
+    saw_last: bool,    // decode_blocks returned true / the decoder reported finished
+    used_slice: bool,  // decode_from_to was used on the current frame
+    frame_error: Option<String>, // a decode call returned an error for the current frame
+}
+
+impl<'f> Exec<'f> {
+    fn dec(&mut self) -> &mut FrameDecoder {
+        match self.sd.as_mut() {
+            Some(x) => &mut *x.decoder,
+            // SAFETY (harness only): `decp` is used either directly or through the StreamingDecoder, never both at once.
+            None => unsafe { &mut *self.decp },
+        }
+    }
+    fn dec_ref(&self) -> &FrameDecoder {
+        match self.sd.as_ref() {
+            Some(x) => &*x.decoder,
+            None => unsafe { &*self.decp },
+        }
+    }
+    fn source(&mut self) -> &mut Src {
+        match self.sd.as_mut() {
+            Some(x) => x.get_mut(),
+            None => &mut self.src,
+        }
+    }
+    fn reset(&mut self, i: usize, cutv: usize) -> Vec<Value> {
+        if let Some(x) = self.sd.take() {
+            let (s_old, _d) = x.into_parts();
+            self.src = s_old;
+        }
+        let fr = &self.frames[i];
+        let newsrc = Src { data: fr.bytes[..cutv.min(fr.bytes.len())].to_vec(), pos: 0, chunk: self.chunk };
+        let r = if self.mode == 1 {
+            match StreamingDecoder::new_with_decoder(newsrc, unsafe { &mut *self.decp }) {
+                Ok(x) => {
+                    self.sd = Some(x);
+                    Ok(())
+                }
+                Err(e) => Err(e),
+            }
+        } else {
+            let mut ns = newsrc;
+            let r = unsafe { &mut *self.decp }.reset(&mut ns);
+            if r.is_ok() {
+                self.src = ns;
+            }
+            r
+        };
+        match r {
+            Ok(()) => {
+                self.fi = i;
+                self.cutv = cutv;
+                self.delivered.clear();
+                self.started = true;
+                self.failed = false;
+                self.saw_last = false;
+                self.used_slice = false;
+                self.frame_error = None;
+                vec![json!("ok")]
+            }
+            Err(e) => {
+                if self.started {
+                    self.failed = true;
+                }
+                vec![json!("err"), json!(err_class(&e))]
+            }
+        }
+    }
+    fn decode(&mut self, strat: BlockDecodingStrategy) -> Vec<Value> {
+        let r = match self.sd.as_mut() {
+            Some(x) => {
+                let xp: *mut SD<'static> = x;
+                // decoder and source are disjoint parts of the streaming decoder
+                unsafe { (*xp).decoder.decode_blocks((*xp).get_mut(), strat) }
+            }
+            None => unsafe { &mut *self.decp }.decode_blocks(&mut self.src, strat),
+        };
+        match r {
+            Ok(f) => {
+                if f {
+                    self.saw_last = true;
+                }
+                vec![json!(f)]
+            }
+            Err(e) => {
+                self.failed = true;
+                self.frame_error = Some(err_class(&e));
+                vec![json!("err"), json!(err_class(&e))]
+            }
+        }
+    }
+    fn from_to(&mut self, a: usize, t: usize, viol: &mut Vec<String>) -> Vec<Value> {
+        let mut tgt = vec![0u8; t];
+        let (data, pos): (Vec<u8>, usize) = {
+            let s = self.source();
+            (s.data.clone(), s.pos)
+        };
+        let end = (pos + a).min(data.len());
+        let before = if self.started { self.dec_ref().bytes_read_from_source() } else { 0 };
+        self.used_slice = true;
+        match self.dec().decode_from_to(&data[pos..end], &mut tgt) {
+            Err(e) => {
+                if self.started {
+                    self.failed = true;
+                    self.frame_error = Some(err_class(&e));
+                }
+                vec![json!("err"), json!(err_class(&e))]
+            }
+            Ok((rd, wr)) => {
+                self.started = true;
+                if rd > end - pos {
+                    viol.push(format!("decode_from_to reports {rd} consumed bytes but was given {}", end - pos));
+                }
+                let after = self.dec_ref().bytes_read_from_source();
+                if after - before != rd as u64 {
+                    viol.push(format!("decode_from_to reports {rd} consumed bytes, bytes_read_from_source advanced by {}", after - before));
+                }
+                if wr > t {
+                    viol.push(format!("decode_from_to reports {wr} written bytes into a target of {t}"));
+                }
+                // the caller advances by what the call says it consumed
+                let np = (pos + rd).min(data.len());
+                self.source().pos = np;
+                self.delivered.extend_from_slice(&tgt[..wr.min(t)]);
+                vec![json!(rd), json!(wr)]
+            }
+        }
+    }
+    fn sread(&mut self, n: usize) -> Vec<Value> {
+        let mut buf = vec![0u8; n];
+        match self.sd.as_mut() {
+            None => vec![json!("not-streaming")],
+            Some(x) => match x.read(&mut buf) {
+                Ok(k) => {
+                    self.delivered.extend_from_slice(&buf[..k.min(n)]);
+                    vec![json!(k)]
+                }
+                Err(e) => {
+                    self.failed = true;
+                    self.frame_error = Some("streaming".into());
+                    let cls = e.get_ref().and_then(|r| r.downcast_ref::<FrameDecoderError>()).map(err_class).unwrap_or_else(|| "io".into());
+                    vec![json!("err"), json!(cls)]
+                }
+            },
+        }
+    }
+    /// property-level checks that hold after every call, whatever the model predicts
+    fn always(&self, viol: &mut Vec<String>) {
+        if !self.started {
+            return;
+        }
+        let fr = &self.frames[self.fi];
+        if !fr.content.starts_with(&self.delivered) {
+            viol.push(format!("the {} bytes handed out are not a prefix of the frame content", self.delivered.len()));
+        }
+        let d = self.dec_ref();
+        if d.is_finished() && (self.cutv < fr.len || !fr.valid) {
+            viol.push(if self.cutv < fr.len { format!("finished on a strict prefix ({} of {} bytes) of the frame", self.cutv, fr.len) } else { "finished although a block of the frame is invalid".to_string() });
+        }
+        if d.is_finished() && d.can_collect() == 0 && !self.failed {
+            if self.delivered != fr.content {
+                viol.push(format!("finished and drained: {} bytes handed out, content has {}", self.delivered.len(), fr.content.len()));
+            }
+            if d.bytes_read_from_source() != fr.len as u64 {
+                viol.push(format!("finished: bytes_read_from_source {} != frame length {}", d.bytes_read_from_source(), fr.len));
+            }
+            let want = xxh64(&self.delivered, 0) as u32;
+            if d.get_calculated_checksum() != Some(want) {
+                viol.push(format!("calculated checksum {:?} != XXH64 of the bytes handed out ({:08x})", d.get_calculated_checksum(), want));
+            }
+            if fr.cks && d.get_checksum_from_data() != Some(want) {
+                viol.push(format!("stored checksum {:?} != XXH64 of the bytes handed out", d.get_checksum_from_data()));
+            }
+        }
+    }
+    /// Finish the current frame with a plain legal driver and check the final outcome.
+    fn complete(&mut self, viol: &mut Vec<String>) {
+        if !self.started {
+            return;
+        }
+        let fr = &self.frames[self.fi];
+        let full = self.cutv >= fr.len;
+        if let Some(e) = &self.frame_error {
+            if full && fr.valid {
+                viol.push(format!("a valid, complete frame was refused ({e})"));
+            }
+        }
+        if self.failed {
+            return;
+        }
+        let mut guard = 0;
+        let mut err: Option<String> = None;
+        if self.used_slice {
+            // continue with the slice interface, offering everything that is left
+            loop {
+                guard += 1;
+                if guard > 10000 {
+                    viol.push("completion: decode_from_to makes no progress".into());
+                    return;
+                }
+                let left = { let s = self.source(); s.data.len() - s.pos };
+                let mut v = vec![];
+                let r = self.from_to(left, 1 << 16, &mut v);
+                viol.extend(v);
+                if r[0] == "err" {
+                    err = Some(r[1].as_str().unwrap_or("").to_string());
+                    break;
+                }
+                if r[0] == 0 && r[1] == 0 {
+                    break;
+                }
+            }
+        } else {
+            if !self.saw_last && !self.dec_ref().is_finished() {
+                let r = self.decode(BlockDecodingStrategy::All);
+                if r[0] == "err" {
+                    err = Some(r[1].as_str().unwrap_or("").to_string());
+                }
+            }
+            if err.is_none() {
+                loop {
+                    guard += 1;
+                    if guard > 10000 {
+                        viol.push("completion: draining makes no progress".into());
+                        return;
+                    }
+                    let v = self.dec().collect().unwrap_or_default();
+                    if v.is_empty() {
+                        break;
+                    }
+                    self.delivered.extend(v);
+                }
+            }
+        }
+        self.always(viol);
+        let fin = self.dec_ref().is_finished();
+        match (&err, full && fr.valid) {
+            (Some(e), true) => viol.push(format!("a valid, complete frame was refused ({e})")),
+            (None, true) => {
+                if !fin || self.delivered != fr.content {
+                    viol.push(format!("valid frame not completed: finished={fin}, {} of {} bytes handed out", self.delivered.len(), fr.content.len()));
+                }
+            }
+            (None, false) => {
+                if fin {
+                    viol.push("an invalid or truncated frame was decoded to the end".into());
+                }
+            }
+            (Some(_), false) => {}
+        }
+    }
+}
+
 /// Run one program. mode: 0 = plain FrameDecoder, 1 = decoder owned by a StreamingDecoder; chunk = source fragmentation.
-fn run_program(prog: &[Value], frames: &[FrameInfo], mode: u8, chunk: usize) -> Result<usize, (usize, Vec<String>)> {
+fn run_program(prog: &[Value], frames: &[FrameInfo], mode: u8, chunk: usize) -> Outcome {
     let decp: *mut FrameDecoder = Box::into_raw(Box::new(FrameDecoder::new()));
-    // SAFETY (harness only): `decp` is used either directly or through the StreamingDecoder `sd`, never both at once.
-    let mut sd: Option<SD<'static>> = None;
-    let mut src = Src { data: vec![], pos: 0, chunk };
-    let mut fi = 0usize;
-    let mut delivered: Vec<u8> = vec![];
-    let mut result = Ok(prog.len());
+    let mut ex = Exec { decp, sd: None, src: Src { data: vec![], pos: 0, chunk }, fi: 0, cutv: 0, frames, delivered: vec![], chunk, mode,
+        started: false, failed: false, saw_last: false, used_slice: false, frame_error: None };
+    let mut out = Outcome::default();
     for (si, s) in prog.iter().enumerate() {
         let op = s["op"].as_str().unwrap();
         let args = s["args"].as_array().unwrap();
         let exp = &s["exp"];
         let au = |i: usize| args[i].as_u64().unwrap() as usize;
+        let exact = out.drift.is_none();
+        let mut viol: Vec<String> = vec![];
         let mut ret: Vec<Value> = vec![];
+        let mut skipped = false;
         let r = std::panic::catch_unwind(std::panic::AssertUnwindSafe(|| {
-            macro_rules! dec {
-                () => {
-                    match sd.as_mut() {
-                        Some(x) => &mut *x.decoder,
-                        None => unsafe { &mut *decp },
-                    }
-                };
-            }
+            // without predictions only calls that are legal for the real state are made
+            let may_decode = exact || (ex.started && !ex.failed && !ex.saw_last && !ex.used_slice && !ex.dec_ref().is_finished());
             match op {
-                "Reset" => {
-                    let i = au(0) - 1;
-                    let cutv = au(1);
-                    // take the decoder back out of a streaming decoder
-                    if let Some(x) = sd.take() {
-                        let (s_old, _d) = x.into_parts();
-                        src = s_old;
-                    }
-                    let newsrc = Src { data: frames[i].bytes[..cutv.min(frames[i].bytes.len())].to_vec(), pos: 0, chunk };
-                    if mode == 1 {
-                        match StreamingDecoder::new_with_decoder(newsrc, unsafe { &mut *decp }) {
-                            Ok(x) => {
-                                sd = Some(x);
-                                fi = i;
-                                delivered.clear();
-                                ret.push(json!("ok"));
-                            }
-                            Err(e) => {
-                                ret.push(json!("err"));
-                                ret.push(json!(err_class(&e)));
-                            }
-                        }
-                    } else {
-                        let mut ns = newsrc;
-                        match unsafe { &mut *decp }.reset(&mut ns) {
-                            Ok(()) => {
-                                src = ns;
-                                fi = i;
-                                delivered.clear();
-                                ret.push(json!("ok"));
-                            }
-                            Err(e) => {
-                                ret.push(json!("err"));
-                                ret.push(json!(err_class(&e)));
-                            }
-                        }
-                    }
-                }
+                "Reset" => ret = ex.reset(au(0) - 1, au(1)),
                 "Decode" => {
-                    let kind = args[0].as_str().unwrap();
+                    if !may_decode {
+                        skipped = true;
+                        return;
+                    }
                     let b = au(1);
-                    let strat = match kind {
+                    let strat = match args[0].as_str().unwrap() {
                         "all" => BlockDecodingStrategy::All,
                         "blocks" => BlockDecodingStrategy::UptoBlocks(b),
                         _ => BlockDecodingStrategy::UptoBytes(b),
                     };
-                    let r = match sd.as_mut() {
-                        Some(x) => {
-                            let xp: *mut SD<'static> = x;
-                            // decoder and source are disjoint parts of the streaming decoder
-                            unsafe { (*xp).decoder.decode_blocks((*xp).get_mut(), strat) }
-                        }
-                        None => unsafe { &mut *decp }.decode_blocks(&mut src, strat),
-                    };
-                    match r {
-                        Ok(f) => ret.push(json!(f)),
-                        Err(e) => {
-                            ret.push(json!("err"));
-                            ret.push(json!(err_class(&e)));
-                        }
-                    }
+                    ret = ex.decode(strat);
                 }
                 "Collect" => {
-                    let v = dec!().collect().unwrap_or_default();
+                    let v = ex.dec().collect().unwrap_or_default();
                     ret.push(json!(v.len()));
-                    delivered.extend(v);
+                    ex.delivered.extend(v);
                 }
                 "Read" => {
                     let mut buf = vec![0u8; au(0)];
-                    let n = Read::read(dec!(), &mut buf[..]).unwrap();
+                    let n = Read::read(ex.dec(), &mut buf[..]).unwrap();
                     ret.push(json!(n));
-                    delivered.extend_from_slice(&buf[..n]);
+                    ex.delivered.extend_from_slice(&buf[..n]);
                 }
                 "CollectTo" => {
                     let script: Vec<i64> = args[0].as_array().unwrap().iter().map(|x| x.as_i64().unwrap()).collect();
                     let mut sink = Sink { script, got: vec![] };
-                    let r = dec!().collect_to_writer(&mut sink);
+                    let r = ex.dec().collect_to_writer(&mut sink);
                     ret.push(json!(if r.is_ok() { "ok" } else { "err" }));
                     ret.push(json!(sink.got.len()));
                     if let Ok(n) = r {
                         if n != sink.got.len() {
-                            ret.push(json!(format!("returned {n}")));
+                            viol.push(format!("collect_to_writer returned {n} but the sink took {} bytes", sink.got.len()));
                         }
                     }
-                    delivered.extend(sink.got);
+                    ex.delivered.extend(sink.got);
                 }
                 "FromTo" => {
                     let i = au(0) - 1;
-                    let a = au(1);
-                    let t = au(2);
-                    let fresh = si == 0 || prog[si - 1]["exp"]["st"] == "none";
+                    let fresh = if exact { si == 0 || prog[si - 1]["exp"]["st"] == "none" } else { !ex.started };
+                    if !exact && (ex.failed || (ex.started && i != ex.fi)) {
+                        skipped = true;
+                        return;
+                    }
                     if fresh {
-                        fi = i;
-                        delivered.clear();
-                        if let Some(x) = sd.as_mut() {
-                            x.get_mut().data = frames[i].bytes.clone();
-                            x.get_mut().pos = 0;
-                        } else {
-                            src = Src { data: frames[i].bytes.clone(), pos: 0, chunk };
-                        }
+                        ex.fi = i;
+                        ex.cutv = frames[i].len;
+                        ex.delivered.clear();
+                        ex.failed = false;
+                        ex.saw_last = false;
+                        ex.frame_error = None;
+                        let data = frames[i].bytes.clone();
+                        let s = ex.source();
+                        s.data = data;
+                        s.pos = 0;
                     }
-                    let mut tgt = vec![0u8; t];
-                    let (data, pos): (Vec<u8>, usize) = match sd.as_mut() {
-                        Some(x) => (x.get_ref().data.clone(), x.get_ref().pos),
-                        None => (src.data.clone(), src.pos),
-                    };
-                    let end = (pos + a).min(data.len());
-                    match dec!().decode_from_to(&data[pos..end], &mut tgt) {
-                        Err(e) => {
-                            ret.push(json!("err"));
-                            ret.push(json!(err_class(&e)));
-                        }
-                        Ok((rd, wr)) => {
-                            ret.push(json!(rd));
-                            ret.push(json!(wr));
-                            // the caller advances by what the call says it consumed
-                            match sd.as_mut() {
-                                Some(x) => x.get_mut().pos = (pos + rd).min(data.len()),
-                                None => src.pos = (pos + rd).min(data.len()),
-                            }
-                            delivered.extend_from_slice(&tgt[..wr.min(t)]);
-                        }
-                    }
+                    ret = ex.from_to(au(1), au(2), &mut viol);
                 }
                 "SRead" => {
-                    let n = au(0);
-                    let mut buf = vec![0u8; n];
-                    match sd.as_mut() {
-                        None => ret.push(json!("not-streaming")),
-                        Some(x) => match x.read(&mut buf) {
-                            Ok(k) => {
-                                ret.push(json!(k));
-                                delivered.extend_from_slice(&buf[..k.min(n)]);
-                            }
-                            Err(e) => {
-                                ret.push(json!("err"));
-                                let cls = e.get_ref().and_then(|r| r.downcast_ref::<FrameDecoderError>()).map(err_class).unwrap_or_else(|| "io".into());
-                                ret.push(json!(cls));
-                            }
-                        },
+                    if !may_decode && !(ex.started && !ex.failed && ex.dec_ref().is_finished()) {
+                        skipped = true;
+                        return;
                     }
+                    ret = ex.sread(au(0));
                 }
                 _ => panic!("op {op}"),
             }
         }));
-        let mut errs = vec![];
+        out.steps += 1;
         if let Err(p) = r {
-            errs.push(format!("panic: {}", panic_msg(p)));
-        } else {
-            let dec: &FrameDecoder = match sd.as_ref() {
-                Some(x) => &*x.decoder,
-                None => unsafe { &*decp },
-            };
+            out.violations.push((si, format!("panic: {}", panic_msg(p))));
+            break;
+        }
+        if skipped {
+            continue;
+        }
+        ex.always(&mut viol);
+        // an error where the specification (which knows the frame is valid and complete up to here) has none, or vice versa
+        if exact {
             let exp_ret = exp["ret"].as_array().unwrap();
-            if &ret != exp_ret {
-                errs.push(format!("returned {:?}, specified {:?}", ret, exp_ret));
+            let is_err = |v: &Vec<Value>| v.first().map(|x| x == "err").unwrap_or(false);
+            if is_err(&ret) != is_err(exp_ret) && op != "CollectTo" {
+                viol.push(format!("returned {:?} where the specification has {:?}", ret, exp_ret));
+            } else if op == "CollectTo" && ret.get(0) != exp_ret.get(0) {
+                viol.push(format!("returned {:?} where the specification has {:?}", ret, exp_ret));
             }
-            let st = exp["st"].as_str().unwrap();
-            if st != "none" {
-                let p = exp["P"].as_u64().unwrap() as usize;
-                let d = exp["D"].as_u64().unwrap() as usize;
-                let ffin = exp["ffin"].as_bool().unwrap();
-                let ck = exp["ck"].as_bool().unwrap();
-                let efi = exp["fi"].as_u64().unwrap() as usize - 1;
-                let fr = &frames[efi];
-                let isfin = ffin && (!fr.cks || ck);
-                let can = if isfin { p - d } else { (p - d).saturating_sub(fr.win) };
-                if st == "active" {
-                    // after a failure only what the properties state is compared (delivered prefix, not finished)
-                    if dec.bytes_read_from_source() != exp["consumed"].as_u64().unwrap() {
-                        errs.push(format!("bytes_read_from_source {} specified {}", dec.bytes_read_from_source(), exp["consumed"]));
+            if viol.is_empty() {
+                // exact comparison with the as-built model: differences are drift, not violations
+                let mut diffs = vec![];
+                if &ret != exp_ret {
+                    diffs.push(format!("returned {:?}, as-built model {:?}", ret, exp_ret));
+                }
+                let st = exp["st"].as_str().unwrap();
+                if st != "none" {
+                    let p = exp["P"].as_u64().unwrap() as usize;
+                    let d = exp["D"].as_u64().unwrap() as usize;
+                    let ffin = exp["ffin"].as_bool().unwrap();
+                    let ck = exp["ck"].as_bool().unwrap();
+                    let efi = exp["fi"].as_u64().unwrap() as usize - 1;
+                    let fr = &frames[efi];
+                    let isfin = ffin && (!fr.cks || ck);
+                    let can = if isfin { p - d } else { (p - d).saturating_sub(fr.win) };
+                    let dec = ex.dec_ref();
+                    if st == "active" {
+                        if dec.bytes_read_from_source() != exp["consumed"].as_u64().unwrap() {
+                            diffs.push(format!("bytes_read_from_source {} model {}", dec.bytes_read_from_source(), exp["consumed"]));
+                        }
+                        if dec.blocks_decoded() != exp["nb"].as_u64().unwrap() as usize {
+                            diffs.push(format!("blocks_decoded {} model {}", dec.blocks_decoded(), exp["nb"]));
+                        }
                     }
-                    if dec.blocks_decoded() != exp["nb"].as_u64().unwrap() as usize {
-                        errs.push(format!("blocks_decoded {} specified {}", dec.blocks_decoded(), exp["nb"]));
+                    if dec.is_finished() != isfin {
+                        diffs.push(format!("is_finished {} model {}", dec.is_finished(), isfin));
+                    }
+                    if dec.can_collect() != can {
+                        diffs.push(format!("can_collect {} model {}", dec.can_collect(), can));
+                    }
+                    if ex.delivered.len() != d {
+                        diffs.push(format!("handed out {} bytes, model {}", ex.delivered.len(), d));
                     }
                 }
-                if dec.is_finished() != isfin {
-                    errs.push(format!("is_finished {} specified {}", dec.is_finished(), isfin));
-                }
-                if dec.can_collect() != can {
-                    errs.push(format!("can_collect {} specified {}", dec.can_collect(), can));
-                }
-                if delivered.len() != d {
-                    errs.push(format!("delivered {} bytes, specified {}", delivered.len(), d));
-                }
-                if !fr.content.starts_with(&delivered) {
-                    errs.push("delivered bytes are not a prefix of the frame content".into());
-                }
-                if st == "active" && isfin && p == d {
-                    if delivered != fr.content {
-                        errs.push("finished and drained, but the delivered bytes are not the frame content".into());
-                    }
-                    let want = xxh64(&delivered, 0) as u32;
-                    if dec.get_calculated_checksum() != Some(want) {
-                        errs.push(format!("calculated checksum {:?} != XXH64 of the delivered bytes {:08x}", dec.get_calculated_checksum(), want));
-                    }
-                    if fr.cks && dec.get_checksum_from_data() != Some(want) {
-                        errs.push(format!("stored checksum {:?} != XXH64 of the delivered bytes", dec.get_checksum_from_data()));
-                    }
+                if !diffs.is_empty() {
+                    out.drift = Some((si, diffs.join("; ")));
                 }
             }
         }
-        if !errs.is_empty() {
-            result = Err((si, errs));
+        if !viol.is_empty() {
+            out.violations.push((si, viol.join("; ")));
             break;
         }
     }
-    drop(sd);
+    if out.violations.is_empty() {
+        let mut viol = vec![];
+        let r = std::panic::catch_unwind(std::panic::AssertUnwindSafe(|| ex.complete(&mut viol)));
+        if let Err(p) = r {
+            viol.push(format!("panic while completing the frame: {}", panic_msg(p)));
+        }
+        if !viol.is_empty() {
+            out.violations.push((prog.len(), format!("after the program, completing the frame: {}", viol.join("; "))));
+        }
+    }
+    drop(ex.sd.take());
     unsafe { drop(Box::from_raw(decp)) };
-    let _ = fi;
-    result
+    out
 }
 
 /// fdexec <frames.json> <programs.ndjson> <report.json>
@@ -447,10 +695,12 @@ pub fn fdexec(args: &[String]) {
     quiet_panics();
     let frames = load_frames(&args[0]);
     let f = std::io::BufReader::new(std::fs::File::open(&args[1]).unwrap());
-    let (mut nprog, mut nstep, mut bad, mut runs) = (0u64, 0u64, 0u64, 0u64);
+    let (mut nprog, mut nstep, mut bad, mut runs, mut drifted) = (0u64, 0u64, 0u64, 0u64, 0u64);
     let mut mism: Vec<Value> = vec![];
+    let mut drifts: Vec<Value> = vec![];
     let mut kinds = std::collections::BTreeMap::<String, u64>::new();
     let mut sigs = std::collections::BTreeMap::<String, u64>::new();
+    let mut dsigs = std::collections::BTreeMap::<String, u64>::new();
     for (li, line) in f.lines().enumerate() {
         let prog: Vec<Value> = serde_json::from_str(&line.unwrap()).unwrap();
         nprog += 1;
@@ -468,18 +718,269 @@ pub fn fdexec(args: &[String]) {
         }
         for (mode, chunk) in variants {
             runs += 1;
-            if let Err((si, errs)) = run_program(&prog, &frames, mode, chunk) {
+            let o = run_program(&prog, &frames, mode, chunk);
+            if let Some((si, d)) = &o.drift {
+                drifted += 1;
+                let s = &prog[*si];
+                *dsigs.entry(format!("{}|{}", s["op"].as_str().unwrap(), d.split(' ').next().unwrap_or(""))).or_insert(0) += 1;
+                if drifts.len() < 5 {
+                    drifts.push(json!({"program": li, "mode": mode, "step": si, "op": s["op"], "args": s["args"], "difference": d}));
+                }
+            }
+            if let Some((si, msg)) = o.violations.first() {
                 bad += 1;
-                let s = &prog[si];
-                let sig = format!("{}|{}", s["op"].as_str().unwrap(), errs[0].split(' ').next().unwrap_or(""));
-                *sigs.entry(sig).or_insert(0) += 1;
+                let sidx = (*si).min(prog.len() - 1);
+                let s = &prog[sidx];
+                *sigs.entry(format!("{}|{}", s["op"].as_str().unwrap(), msg.split(' ').take(3).collect::<Vec<_>>().join(" "))).or_insert(0) += 1;
                 if mism.len() < 20 {
-                    mism.push(json!({"program": li, "mode": mode, "chunk": chunk, "step": si, "op": s["op"], "args": s["args"], "errors": errs,
-                        "state_before": if si > 0 { prog[si - 1]["exp"].clone() } else { json!("init") }, "prefix": prog[..=si].to_vec()}));
+                    mism.push(json!({"program": li, "mode": mode, "chunk": chunk, "step": si, "op": s["op"], "args": s["args"], "errors": [msg],
+                        "state_before": if sidx > 0 { prog[sidx - 1]["exp"].clone() } else { json!("init") }, "prefix": prog[..=sidx].to_vec()}));
                 }
                 break;
             }
         }
     }
-    write_json(&args[2], &json!({"programs": nprog, "steps": nstep, "runs": runs, "mismatches": bad, "first": mism, "ops": kinds, "signatures": sigs}));
+    write_json(&args[2], &json!({"programs": nprog, "steps": nstep, "runs": runs, "mismatches": bad, "first": mism, "ops": kinds, "signatures": sigs,
+        "drifted_runs": drifted, "drift_examples": drifts, "drift_signatures": dsigs}));
+}
+
+/// fdrand <seed> <schedules per frame> <index.json> <report.json>
+/// Random legal driver programs over real frames (corpus / libzstd / ruzstd); oracle = the original bytes.
+pub fn fdrand(args: &[String]) {
+    use rand::{rngs::SmallRng, Rng, SeedableRng};
+    quiet_panics();
+    let seed: u64 = args[0].parse().unwrap();
+    let per: usize = args[1].parse().unwrap();
+    let idx: Value = serde_json::from_str(&std::fs::read_to_string(&args[2]).unwrap()).unwrap();
+    let mut rng = SmallRng::seed_from_u64(seed ^ 0xfd);
+    let mut dec = FrameDecoder::new();
+    dec.set_max_window_size(1 << 31);
+    let (mut runs, mut bad, mut calls) = (0u64, 0u64, 0u64);
+    let mut mism: Vec<Value> = vec![];
+    let mut modes = std::collections::BTreeMap::<String, u64>::new();
+    let mut samples: Vec<Value> = vec![];
+    for fr in idx["frames"].as_array().unwrap() {
+        let frame = std::fs::read(fr["frame"].as_str().unwrap()).unwrap();
+        let content = std::fs::read(fr["content"].as_str().unwrap()).unwrap();
+        let lay = match walk_frame(&frame) {
+            Ok(l) => l,
+            Err(_) => continue,
+        };
+        let flen = lay["len"].as_u64().unwrap() as usize;
+        let win = lay["win"].as_u64().unwrap() as usize;
+        let cks = lay["cks"].as_bool().unwrap();
+        for k in 0..per {
+            runs += 1;
+            let mode = ["plain", "stream", "slice"][rng.gen_range(0..3)];
+            *modes.entry(mode.to_string()).or_insert(0) += 1;
+            let chunk = if rng.gen_bool(0.5) { 0 } else { rng.gen_range(1..5000) };
+            let abandon = rng.gen_bool(0.1);
+            let mut oplog: Vec<Value> = vec![json!({"frame": fr["name"], "mode": mode, "chunk": chunk})];
+            let mut delivered: Vec<u8> = Vec::with_capacity(content.len());
+            let mut errs: Vec<String> = vec![];
+            let mut script = |rng: &mut SmallRng| -> Vec<i64> {
+                (0..rng.gen_range(0..4)).map(|_| match rng.gen_range(0..6) { 0 => -1, 1 => 0, 2 => -2, _ => rng.gen_range(1..70000) }).collect()
+            };
+            let r = std::panic::catch_unwind(std::panic::AssertUnwindSafe(|| -> Result<(), String> {
+                let mut drain = |dec: &mut FrameDecoder, rng: &mut SmallRng, delivered: &mut Vec<u8>, oplog: &mut Vec<Value>, calls: &mut u64| -> Result<(), String> {
+                    *calls += 1;
+                    match rng.gen_range(0..4) {
+                        0 => {
+                            let before = dec.can_collect();
+                            let v = dec.collect().unwrap_or_default();
+                            if v.len() != before {
+                                return Err(format!("collect gave {} bytes, can_collect said {}", v.len(), before));
+                            }
+                            oplog.push(json!(["collect", v.len()]));
+                            delivered.extend(v);
+                        }
+                        1 => {
+                            let n = [0usize, 1, 7, 1000, 4096, 70000, 1 << 20][rng.gen_range(0..7)];
+                            let mut buf = vec![0u8; n];
+                            let k = Read::read(dec, &mut buf).map_err(|e| e.to_string())?;
+                            oplog.push(json!(["read", n, k]));
+                            delivered.extend_from_slice(&buf[..k]);
+                        }
+                        _ => {
+                            let sc = script(rng);
+                            let mut sink = Sink { script: sc.clone(), got: vec![] };
+                            let r = dec.collect_to_writer(&mut sink);
+                            if let Ok(n) = r {
+                                if n != sink.got.len() {
+                                    return Err(format!("collect_to_writer returned {n}, sink took {}", sink.got.len()));
+                                }
+                            }
+                            oplog.push(json!(["collect_to_writer", sc, sink.got.len()]));
+                            delivered.extend(sink.got);
+                        }
+                    }
+                    Ok(())
+                };
+                match mode {
+                    "plain" => {
+                        let mut src = Src { data: frame.clone(), pos: 0, chunk };
+                        dec.reset(&mut src).map_err(|e| format!("reset: {e}"))?;
+                        let mut guard = 0;
+                        while !dec.is_finished() {
+                            guard += 1;
+                            if guard > 200000 {
+                                return Err("no progress (hang)".into());
+                            }
+                            if abandon && dec.blocks_decoded() > 0 && rng.gen_bool(0.3) {
+                                return Ok(());
+                            }
+                            let strat = match rng.gen_range(0..4) {
+                                0 => BlockDecodingStrategy::All,
+                                1 => BlockDecodingStrategy::UptoBlocks(rng.gen_range(0..4)),
+                                _ => BlockDecodingStrategy::UptoBytes([0usize, 1, 1000, 100_000, 1 << 20][rng.gen_range(0..5)]),
+                            };
+                            calls += 1;
+                            let held_before = delivered.len();
+                            dec.decode_blocks(&mut src, strat).map_err(|e| format!("decode_blocks: {e}"))?;
+                            let _ = held_before;
+                            for _ in 0..rng.gen_range(0..3) {
+                                drain(&mut dec, &mut rng, &mut delivered, &mut oplog, &mut calls)?;
+                            }
+                        }
+                        let mut guard = 0;
+                        while dec.can_collect() > 0 {
+                            guard += 1;
+                            if guard > 100000 {
+                                return Err("drain makes no progress (hang)".into());
+                            }
+                            drain(&mut dec, &mut rng, &mut delivered, &mut oplog, &mut calls)?;
+                        }
+                        if src.pos != flen {
+                            return Err(format!("source position {} after the frame, frame length {}", src.pos, flen));
+                        }
+                    }
+                    "stream" => {
+                        let src = Src { data: frame.clone(), pos: 0, chunk };
+                        let mut sd = StreamingDecoder::new_with_decoder(src, &mut dec).map_err(|e| format!("new: {e}"))?;
+                        let mut guard = 0;
+                        loop {
+                            guard += 1;
+                            if guard > 2_000_000 {
+                                return Err("no progress (hang)".into());
+                            }
+                            let n = [1usize, 2, 100, 4096, 65536, 200_000][rng.gen_range(0..6)];
+                            let mut buf = vec![0u8; n];
+                            calls += 1;
+                            let k = sd.read(&mut buf).map_err(|e| format!("streaming read: {e}"))?;
+                            if k == 0 {
+                                break;
+                            }
+                            delivered.extend_from_slice(&buf[..k]);
+                            if abandon && rng.gen_bool(0.01) {
+                                return Ok(());
+                            }
+                        }
+                        let pos = sd.get_ref().pos;
+                        drop(sd);
+                        if pos != flen {
+                            return Err(format!("source position {} after the frame, frame length {}", pos, flen));
+                        }
+                    }
+                    _ => {
+                        // slice to slice: a fresh decoder state is needed for the first call to initialise the frame
+                        dec = { let mut d = FrameDecoder::new(); d.set_max_window_size(1 << 31); d };
+                        let mut pos = 0usize;
+                        let mut offer = rng.gen_range(18..200_000usize);
+                        let mut guard = 0;
+                        let mut idle = 0;
+                        loop {
+                            guard += 1;
+                            if guard > 2_000_000 || idle > 200 {
+                                return Err("decode_from_to makes no progress (stuck)".into());
+                            }
+                            let t = [0usize, 1, 100, 4096, 65536, 300_000][rng.gen_range(0..6)];
+                            let mut tgt = vec![0u8; t];
+                            let end = (pos + offer).min(frame.len());
+                            calls += 1;
+                            let before = if pos == 0 { 0 } else { dec.bytes_read_from_source() };
+                            match dec.decode_from_to(&frame[pos..end], &mut tgt) {
+                                Err(e) => {
+                                    if pos == 0 && end < frame.len() && end < 18 {
+                                        offer += 1;
+                                        continue;
+                                    }
+                                    return Err(format!("decode_from_to: {e}"));
+                                }
+                                Ok((rd, wr)) => {
+                                    if rd > end - pos {
+                                        return Err(format!("decode_from_to reports {rd} consumed bytes, was given {}", end - pos));
+                                    }
+                                    if dec.bytes_read_from_source() - before != rd as u64 {
+                                        return Err(format!("decode_from_to reports {rd} consumed bytes, counter advanced by {}", dec.bytes_read_from_source() - before));
+                                    }
+                                    pos += rd;
+                                    delivered.extend_from_slice(&tgt[..wr]);
+                                    if rd == 0 && wr == 0 {
+                                        idle += 1;
+                                        if dec.is_finished() && dec.can_collect() == 0 && t > 0 {
+                                            break;
+                                        }
+                                        // no progress: offer more input (a whole block must be visible) and a real target
+                                        offer = (offer * 2).min(140_000).max(offer + 1);
+                                    } else {
+                                        idle = 0;
+                                        if rng.gen_bool(0.3) {
+                                            offer = rng.gen_range(1..200_000usize);
+                                        }
+                                    }
+                                }
+                            }
+                            if abandon && rng.gen_bool(0.02) {
+                                return Ok(());
+                            }
+                        }
+                        if pos != flen {
+                            return Err(format!("consumed {} bytes in total, frame length {}", pos, flen));
+                        }
+                    }
+                }
+                // final checks (frame completed)
+                if !dec.is_finished() {
+                    return Err("not finished at the end".into());
+                }
+                if dec.bytes_read_from_source() != flen as u64 {
+                    return Err(format!("bytes_read_from_source {} != frame length {}", dec.bytes_read_from_source(), flen));
+                }
+                if delivered != content {
+                    let p = delivered.iter().zip(content.iter()).position(|(a, b)| a != b).unwrap_or(delivered.len().min(content.len()));
+                    return Err(format!("delivered {} bytes, content {} bytes, first difference at {}", delivered.len(), content.len(), p));
+                }
+                let want = xxh64(&delivered, 0) as u32;
+                if dec.get_calculated_checksum() != Some(want) {
+                    return Err(format!("calculated checksum {:?} != XXH64 of the delivered bytes {:08x}", dec.get_calculated_checksum(), want));
+                }
+                if cks && dec.get_checksum_from_data() != Some(want) {
+                    return Err("stored checksum differs from XXH64 of the delivered bytes".into());
+                }
+                if lay["fcs_present"].as_bool().unwrap() && dec.content_size() != content.len() as u64 {
+                    return Err(format!("content_size() {} != {}", dec.content_size(), content.len()));
+                }
+                Ok(())
+            }));
+            match r {
+                Err(p) => errs.push(format!("panic: {}", panic_msg(p))),
+                Ok(Err(e)) => errs.push(e),
+                Ok(Ok(())) => {}
+            }
+            if errs.is_empty() && !content.starts_with(&delivered) {
+                errs.push("delivered bytes are not a prefix of the content".into());
+            }
+            if !errs.is_empty() {
+                bad += 1;
+                if mism.len() < 10 {
+                    let n = oplog.len();
+                    mism.push(json!({"frame": fr["name"], "frame_path": fr["frame"], "mode": mode, "chunk": chunk, "win": win, "schedule": k, "errors": errs, "last_ops": oplog[n.saturating_sub(12)..].to_vec()}));
+                }
+                // a failed decoder is reset by the next schedule (C03/C07: reuse after failure)
+            } else if samples.len() < 3 && oplog.len() > 2 {
+                samples.push(json!(oplog[..oplog.len().min(10)].to_vec()));
+            }
+        }
+    }
+    write_json(&args[3], &json!({"frames": idx["frames"].as_array().unwrap().len(), "runs": runs, "calls": calls, "mismatches": bad, "first": mism, "modes": modes, "samples": samples}));
 }
